@@ -305,14 +305,6 @@ func AllSites(d string, s gm.Schema) []Site {
 			}
 		}
 	}
-	// attributes of the schema itself (reported inside a ModifySchema)
-	switch d {
-	case "mysql":
-		add(EditRef{Kind: "schema-charset", Arg: "latin1/latin1_swedish_ci"}, "schema.attr:charset")
-		add(EditRef{Kind: "schema-collate", Arg: "utf8mb4_general_ci"}, "schema.attr:charset")
-	case "postgres":
-		add(EditRef{Kind: "schema-comment", Arg: "application schema"}, "schema.attr:comment")
-	}
 	for _, t := range s.Tables {
 		T := t.Name
 		if !referenced[T] {
@@ -603,6 +595,14 @@ func AllSites(d string, s gm.Schema) []Site {
 			}
 			add(EditRef{Kind: "table-strict", Table: T}, T+".attr:strict")
 		}
+	}
+	// attributes of the schema itself (reported inside a ModifySchema); last, so that the positions of the other sites stay
+	switch d {
+	case "mysql":
+		add(EditRef{Kind: "schema-charset", Arg: "latin1/latin1_swedish_ci"}, "schema.attr:charset")
+		add(EditRef{Kind: "schema-collate", Arg: "utf8mb4_general_ci"}, "schema.attr:charset")
+	case "postgres":
+		add(EditRef{Kind: "schema-comment", Arg: "application schema"}, "schema.attr:comment")
 	}
 	return out
 }
